@@ -145,8 +145,13 @@ Example C16_example :
   end.
 Proof. vm_compute. split; reflexivity. Qed.
 
-(* without -v the Go code dereferences the nil commodity (c.Name() in beancount.Transcode):
-   modelled as CPanic; reported under C14 (findings/C14-transcode-without-valuation-panics.md) *)
-Example C16_no_valuation_panics :
-  transcode_cmd true None c16_witness = CPanic k_nil_commodity.
+(* without -v the pinned Go code dereferenced the nil commodity (c.Name() in beancount.Transcode):
+   modelled as CPanic; found under C14 (findings/C14-transcode-without-valuation-panics.md) and
+   repaired by 864fd70: the command now fails with an error before loading anything *)
+Example C16_no_valuation_panics_pinned :
+  transcode_cmd_pinned true None c16_witness = CPanic k_nil_commodity.
 Proof. vm_compute. reflexivity. Qed.
+
+Theorem C16_no_valuation_is_error : forall l ds, transcode_cmd l None ds = CErr k_valuation [].
+Proof. reflexivity. Qed.
+Print Assumptions C16_no_valuation_is_error.
